@@ -1,6 +1,6 @@
 import SctpVerif.Props.C01net
 import SctpVerif.Proofs.NetSys.SelFifo
-import SctpVerif.Proofs.NetSys.SelQ
+import SctpVerif.Proofs.NetSys.SelQShape
 /-!
 # C01 — the selection hypothesis of the DATA composition, discharged for FIFO selection
 
@@ -32,8 +32,8 @@ What remains outside Lean: that the real `pendingQueue` and the real `pending`-o
 model says, i.e. `SelFifo` for real runs. It is tied by `TestVerifPendQ` (PendQ model vs pending_queue.go) and by the `as`
 correspondence harness, which logs the indices of the chunks the real queue handed out (`sel=`), replays them through
 `Sender.gather`, and whose predicate `[C01,C17]` (`Driver/Assoc.lean`) checks that they are all 0 in non-interleaved,
-all-ordered sequences. Also not proved: that no `pendingQueue.pop` fails in such runs (NetSysQ raises `err` and hands out
-nothing afterwards; the prefix theorem holds either way).
+all-ordered sequences. (`C01_netsysq_no_queue_error`: in such runs of the composed model no `pendingQueue.pop` fails —
+the `err` flag of NetSysQ, after which it hands out nothing, is never raised.)
 -/
 namespace C01
 open NetSys SenderProofs SenderTsn
@@ -100,6 +100,14 @@ theorem C01_netsysq_prefix (P : Params) (ops : List Op) (si : BitVec 16)
     readsOn P si (init P) (NetSysQ.resolve P (NetSysQ.init P) ops) <+:
       writesOn P si (init P) (NetSysQ.resolve P (NetSysQ.init P) ops) :=
   C01_netsys_prefix_fifo P _ si hil (C01_netsysq_selfifo P ops hrel).2 (C01_netsysq_selfifo P ops hrel).1 htsn hwin
+
+/-- **No queue error over reliable ordered streams.** In every run of NetSysQ whose streams are all opened ordered and
+reliable, no `pendingQueue.pop` fails (`ErrUnexpectedQState` needs a non-first fragment at the head while no message is
+selected; writes queue whole messages, B first, E last, and the queue runs parallel to the sender's pending list) and
+every chunk `peek` returns is found in the pending list: the flag `err` is never raised. -/
+theorem C01_netsysq_no_queue_error (P : Params) (ops : List Op) (hrel : Reliable ops = true) :
+    (NetSysQ.run P (NetSysQ.init P) ops).q.err = false :=
+  NetSysQ.run_noerr P (NetSysQ.init P) ops (NetSysQ.init_rinv2 P) hrel
 
 /-! ## tests by evaluation and non-vacuity (`decide` on concrete runs — these are tests, not theorems) -/
 
